@@ -297,6 +297,21 @@ func (w *world) routes() []route {
 		{"tor file", "/" + w.h + "/zqFileF.bin", "", nil, false},
 		{"tor playlist", "/" + w.h + "/?playlist", "", nil, false},
 		{"tor playlist", "/" + w.h + "/zqDirC/?playlist", "", nil, false},
+		// paths storrent declares nothing special for: whatever else is registered on the server's mux (debug
+		// endpoints a library registers by being imported, metrics) sits behind the same Host check or nowhere
+		{"other path", "/debug/pprof/", "", nil, false},
+		{"other path", "/debug/pprof/cmdline", "", nil, false},
+		{"other path", "/debug/pprof/goroutine?debug=1", "", nil, false},
+		{"other path", "/debug/pprof/heap", "", nil, false},
+		{"other path", "/debug/vars", "", nil, false},
+		{"other path", "/debug/requests", "", nil, false},
+		{"other path", "/debug/events", "", nil, false},
+		{"other path", "/metrics", "", nil, false},
+		{"other path", "/favicon.ico", "", nil, false},
+		{"other path", "/robots.txt", "", nil, false},
+		{"other path", "/index.html", "", nil, false},
+		{"other path", "/.well-known/security.txt", "", nil, false},
+		{"other path", "/a/b/c/d/e", "", nil, false},
 		// destructive ones last (for the allowed hosts)
 		{"root q=delete", "/?q=delete", ue, []byte("hash=" + w.h), true},
 		{"root q=delete", "/?q=delete&hash=" + w.h, "", nil, true},
